@@ -6,10 +6,10 @@ import struct
 
 from sa.astx import NotConst, call_attr, call_name, const_eval, dotted, src, statements, walk_local
 from sa.selftest import Mutant, Silent
-from sa.source import class_assigns, methods
-from sa.props._lib_h import (assigned_pairs, call_nodes, calls_at, canon, const_is, csrc, def_nodes, edge_path, flatten_add,
-                              guarded_by_edges, is_attr, lin, lincmp_c, local_aliases, need, reaching_defs, self_attr, stmts,
-                              struct_fmt_norm, succ_on, tests, truth_edges, truthiness)
+from sa.source import class_assigns
+from sa.props._lib_h import (assigned_pairs, call_nodes, calls_at, const_is, csrc, def_nodes, edge_path, flatten_add,
+                              guarded_by_edges, lin, lincmp_c, local_aliases, need, reaching_defs, self_attr, stmts,
+                              struct_fmt_norm, succ_on, tests, truth_edges)
 
 PROPERTY = "C35"
 TR = "conch/ssh/transport.py"
